@@ -55,6 +55,9 @@ type Engine struct {
 	confined   map[string]string
 	eventKinds map[string]bool
 	sweepLoops bool
+	ifaceImpls map[string][]string // interface method key -> synthetic keys of implementation bodies checked against it
+	implOf     map[string][]string // implementation method key -> interface method keys whose frame it must refine
+	implPairs  []ImplPair
 }
 
 func loadEngine(repo string) (*Engine, error) {
@@ -151,6 +154,7 @@ func loadEngine(repo string) (*Engine, error) {
 	if err := e.loadContracts(); err != nil {
 		return nil, err
 	}
+	e.buildImplements()
 	return e, nil
 }
 
